@@ -110,6 +110,15 @@ pub fn observe(ctx: &Ctx, st: &mut Stats, job: &Job) {
         let svg = match adapter::guarded(|| {
             let mut b = SvgBuilder::default();
             b.margin(margin);
+            // every other render also embeds an image (default or explicit placement): callbacks are handed the symbol's
+            // own modules whatever else the document contains
+            if job.seed % 2 == 1 {
+                b.image("logo.png".to_string());
+                if job.seed % 4 == 3 {
+                    b.image_size(5.0);
+                    b.image_position(n as f64 / 2.0 + margin as f64, n as f64 / 3.0 + margin as f64);
+                }
+            }
             match layers {
                 0 => {
                     b.shape(Shape::Command(spy));
@@ -217,7 +226,7 @@ pub fn run(ctx: &Ctx) -> Report {
     }
     let mut rep = Report::new(
         st,
-        "jobs = every (version, level, forced mask) cell (1280, enumerated completely; every fifth payload with automatic mask) x payloads (capacity-filling + random lengths), + one Shape::Command callback render per version; the label of every coordinate is compared with the oracle's ISO region map (alignment modules lying on the timing row/column may carry either label), the number of Data labels with 8*codewords+remainder, one label map per version across the whole run, and the module byte handed to a user callback with QRCode.data; distinct key = (options, len, payload hash); every case non-trivial",
+        "jobs = every (version, level, forced mask) cell (1280, enumerated completely; every fifth payload with automatic mask) x payloads (capacity-filling + random lengths), + one Shape::Command callback render per version (every other one with an embedded image); the label of every coordinate is compared with the oracle's ISO region map (alignment modules lying on the timing row/column may carry either label), the number of Data labels with 8*codewords+remainder, one label map per version across the whole run, and the module byte handed to a user callback with QRCode.data; distinct key = (options, len, payload hash); every case non-trivial",
     );
     rep.exhaustive = Some(true);
     rep.expected_sets = vec![("versions", 40), ("version_level_mask", 1280)];
